@@ -462,11 +462,15 @@ class ExprMixin(object):
     def ev_BoolOp(self, n, st):
         """and/or in boolean positions.  Operands are evaluated left to right; each later operand is evaluated in a scratch
         state that assumes the earlier ones were true (and) / false (or), with optional variables refined accordingly —
-        Python's short-circuit semantics for pure operands."""
+        Python's short-circuit semantics for pure operands.  Facts learnt while evaluating an operand (postconditions of
+        contract calls) are kept in the real state, guarded by the condition under which that operand is evaluated."""
         isand = isinstance(n.op, ast.And)
         out = []
-        def go(i, s_eval, acc):
+        def go(i, s_eval, acc, guard):
+            n0 = len(s_eval.pc)
             for v, s2 in self.ev(n.values[i], s_eval):
+                for fact in s2.pc[n0:]:
+                    st.pc.append(z3.Implies(z3.And(*guard), fact) if guard else fact)
                 t = self.truth(v, s2)
                 if i == len(n.values) - 1:
                     out.append((Sc(z3.And(*(acc + [t])) if isand else z3.Or(*(acc + [t])), 'bool'), st)); continue
@@ -474,12 +478,13 @@ class ExprMixin(object):
                 if (isand and z3.is_false(ts)) or (not isand and z3.is_true(ts)):
                     out.append((Sc(z3.BoolVal(not isand), 'bool'), st)); continue      # short circuit decided here
                 s3 = s2.copy()
-                s3.pc.append(t if isand else z3.Not(t))
+                c = t if isand else z3.Not(t)
+                s3.pc.append(c)
                 if not self.feasible(s3):
                     out.append((Sc(z3.And(*(acc + [t])) if isand else z3.Or(*(acc + [t])), 'bool'), st)); continue
                 self.refine_optional(n.values[i], s3, isand)
-                go(i + 1, s3, acc + [t])
-        go(0, st, [])
+                go(i + 1, s3, acc + [t], guard + [c])
+        go(0, st.copy(), [], [])
         return out
 
     def ev_Compare(self, n, st):
@@ -531,6 +536,11 @@ class ExprMixin(object):
 
     def contains(self, container, item, st):
         c = self.deref(container, st)
+        if isinstance(c, Obj) and getattr(self.reg.classes.get(c.cls), 'external', False):
+            ct = self.reg.get('<ext>', '%s.__contains__' % c.cls)
+            if ct is None: raise Unsupported('membership in external %s' % c.cls)
+            res = self.call_contract(ct, None, [c, item], {}, st, None)
+            return unwrap(res[0][0])
         if isinstance(c, PyDict):
             item = self.deref(item, st)
             if isinstance(item, PyStr): return z3.BoolVal(item.s in c.d)
